@@ -195,9 +195,14 @@ class RemoteProxy(BaseProxy):
     async def stop(self) -> None:
         try:
             await asyncio.wait_for(self._channel.send(["stop", [], {}]), 0.1)
-        except (asyncio.TimeoutError, asyncio.IncompleteReadError):
+        except (asyncio.TimeoutError, asyncio.IncompleteReadError, ConnectionError):
+            # The simulator did not answer in time or is already gone.
             pass
-        await self._channel.close()
+        try:
+            await self._channel.close()
+        except ConnectionError:
+            # The connection is already broken.
+            pass
         await self._reader_task
 
 
